@@ -54,7 +54,8 @@ TReload ==
   /\ UNCHANGED <<file, reloadPc, staged, tx, txdef, cobj, nops, viol, sc>>
 
 \* A: [b1 primary, b4 replica]   B: [b3 primary]   R: [b1 replica, b4 primary]; the pool routes to its primary
-ServerOf(d) == IF d = "A" THEN "b1" ELSE IF d = "B" THEN "b3" ELSE IF d = "R" THEN "b4" ELSE "none"
+\* P: the servers of A, plus query parsing and a table_access plugin that guards table "guarded"
+ServerOf(d) == IF d \in {"A", "P"} THEN "b1" ELSE IF d = "B" THEN "b3" ELSE IF d = "R" THEN "b4" ELSE "none"
 
 TTxStart ==
   /\ E.ev = "txstart"
@@ -69,6 +70,23 @@ TTxStart ==
         /\ tx' = [tx EXCEPT ![E.c] = IF E.landed = "none" THEN -1 ELSE pools.obj]
         /\ txdef' = [txdef EXCEPT ![E.c] = d]
   /\ UNCHANGED <<file, config, pools, nextObj, reloadPc, staged, cobj, nops, viol, applied, sc>>
+
+\* a one-statement transaction reading table "guarded"
+TProbe ==
+  /\ E.ev = "probe"
+  /\ LET d == pools.def
+         guarded == d = "P"
+         v1 == guarded /\ (~E.denied \/ E.landed # "none")
+         v2 == ~guarded /\ d # "absent" /\ E.denied
+         v3 == ~guarded /\ d # "absent" /\ ~E.denied /\ E.landed # ServerOf(d) /\ E.landed # "none"
+         v4 == d = "absent" /\ E.landed # "none"
+     IN /\ Flag(v1, "policy_of_new_definition_not_applied", [in_effect |-> d, denied |-> E.denied, landed |-> E.landed])
+        /\ Flag(v2, "policy_of_old_definition_applied", [in_effect |-> d, reply |-> E.reply])
+        /\ Flag(v3, "wrong_definition_used", [in_effect |-> d, expected |-> ServerOf(d), landed |-> E.landed])
+        /\ Flag(v4, "removed_pool_served", [landed |-> E.landed])
+        /\ seen' = seen \cup K({<<v1, "policy_of_new_definition_not_applied">>, <<v2, "policy_of_old_definition_applied">>,
+                                <<v3, "wrong_definition_used">>, <<v4, "removed_pool_served">>})
+  /\ UNCHANGED <<vars, sc>>
 
 TTxStep ==
   /\ E.ev = "txstep"
@@ -89,7 +107,7 @@ TTxEnd ==
 
 \* PAUSE / RESUME are not in the recorded trace: a held transaction is recorded as starting when RESUME let it go
 Step == /\ l <= Len(Rec) /\ l' = l + 1 /\ paused' = paused /\ parked' = parked
-        /\ (Reset \/ TWrite \/ TReload \/ TTxStart \/ TTxStep \/ TTxEnd)
+        /\ (Reset \/ TWrite \/ TReload \/ TTxStart \/ TTxStep \/ TTxEnd \/ TProbe)
 TSpec == TInit /\ [][Step]_tv
 Accepted == /\ PrintT(<<"MATCHED", ToString(TLCGet("stats").diameter - 1)>>)
             /\ TLCGet("stats").diameter - 1 = Len(Rec)
